@@ -48,7 +48,7 @@ func MarshalBinary[T any](t TestingT, cases []CaseBinary[T]) {
 		}
 		if c.Error != nil {
 			if c.Error(t, err, failInfo) {
-				assert.Nil(t, b, failInfo)
+				assert.Empty(t, b, failInfo)
 			}
 		} else {
 			if assert.NoError(t, err, failInfo) {
